@@ -106,6 +106,9 @@ def configs(tier):
     # the same estimator object fitted a second time on other data (after its weights and predictions were used)
     add("tucker", ns=2, x=(2, 2), ranks=(1, 1), it=1, npred=2, refit=1)
     add("tucker", ns=2, x=(2, 2), ranks=(2, 1), it=1, npred=2, refit=1)
+    # symbolic tolerance, three sweeps: the convergence exit (tested from the third sweep on) and the iteration cap are both explored
+    add("tucker", ns=2, x=(2, 2), ranks=(1, 1), it=3, npred=2, tol="sym", mode="fork")
+    add("cp", ns=2, x=(2, 2), y=(), R=1, it=3, npred=2, tol="sym", mode="fork")
     add("cp", ns=2, x=(2, 2), y=(), R=1, it=1, npred=2, refit=1)
     add("cp", ns=2, x=(2,), y=(2,), R=2, it=1, npred=2, refit=1)
     # CP_PLSR (3 samples; ny == 0: vector-valued Y).  Two components with permuted samples is left out: the second
@@ -430,7 +433,7 @@ def h_cp(E, cfg):
     Xn = E.real("Xn", (cfg["npred"],) + x)
     if E.symbolic:
         backend.configure(solve="havoc")
-    est = CPRegressor(weight_rank=R, tol=0, reg_W=reg_W, n_iter_max=it, random_state=7, verbose=0)
+    est = CPRegressor(weight_rank=R, tol=E.real("tol", pos=True) if cfg.get("tol") == "sym" else 0, reg_W=reg_W, n_iter_max=it, random_state=7, verbose=0)
     try:
         if cfg.get("refit"):
             X0 = E.real("X0", (ns,) + x)
@@ -464,7 +467,7 @@ def h_tucker(E, cfg):
     Xn = E.real("Xn", (cfg["npred"],) + x)
     if E.symbolic:
         backend.configure(solve="havoc")
-    est = TuckerRegressor(weight_ranks=list(ranks), tol=0, reg_W=reg_W, n_iter_max=it, random_state=7, verbose=0)
+    est = TuckerRegressor(weight_ranks=list(ranks), tol=E.real("tol", pos=True) if cfg.get("tol") == "sym" else 0, reg_W=reg_W, n_iter_max=it, random_state=7, verbose=0)
     try:
         if cfg.get("refit"):
             X0 = E.real("X0", (ns,) + x)
